@@ -12,6 +12,9 @@ Case kinds
              the property does not depend on, copy the object, validate again, append through frames bound
              to it — every verdict is judged against the columns as they are at that moment
   dictframe  appends to a frame built from dictionaries (no schema object: atomicity and column order only)
+  bound      frames that STAY bound to ONE RelationSchema object while its owner edits it (rename / retype in place, reorder, add,
+             remove, replace columns) between their appends; the frames' cached helpers (column_names, columncount, description)
+             are read in between — every append is judged against the columns as they are at that moment
   family     several frames of one schema: a root frame and frames derived from it (head / tail / slice / query /
              distinct / filter / take / to_batches / +); appends go to any of them, each frame is a register of
              its own append history: it holds exactly its original rows plus the records accepted by appends to IT
@@ -298,7 +301,7 @@ def schema_for(case):
     except Exception as e:
         return None, "schema route %s raised %s" % (via, type(e).__name__)
     seen = observed_cols(schema)
-    if seen is None or len({c[0] for c in seen}) != len(seen):
+    if seen is None or (len({c[0] for c in seen}) != len(seen) and len({c[0] for c in cols}) == len(cols)):
         return None, "schema route %s left the statement" % via
     return schema, seen
 
@@ -1288,9 +1291,11 @@ def raw_cols_ok(cols):
                and (len(c) == 3 or isinstance(c[3], list)) for c in cols)
 
 
-def names_ok(cols):
+def names_ok(cols, dup=False):
+    """`dup`: two columns may bear one name (what `RelationSchema.__add__` makes of two relations that share a column name):
+    the statement speaks per column — every column present, one value per column in column order"""
     names = [c[0] for c in cols]
-    if len(set(names)) != len(names):
+    if not dup and len(set(names)) != len(names):
         return False
     for c in cols:
         if not isinstance(c[0], str) or not (c[1] is None or c[1] in EXPECTED_CLASS) or not isinstance(c[2], bool):
@@ -1311,6 +1316,162 @@ def rows_ok(cols, rows):
             if (v is None and not c[2]) or (v is not None and c[1] is not None and not isinstance(v, EXPECTED_CLASS[c[1]])):
                 return False
     return True
+
+
+# ----------------------------------------------------------------------------- frames bound to a schema that is edited
+#
+# The schema a frame is bound to is an ordinary shared object.  Its owner renames, reorders, adds, removes or replaces
+# columns BETWEEN two appends to the same frame.  Every append is judged against the columns as they are at that moment:
+# the record validates against them or not, and what is stored is its values in THEIR order.  A case:
+#   {"kind": "bound", "cols": [...], "ops": [...]}      ops:
+#   ["bind", rows, how]          a frame on the schema as it is now (from a list / None / a generator)
+#   ["append", i, tags, kind]    a record object to frame i
+#   ["read", i, what]            something read off frame i that the statement does not depend on (cached helpers)
+#   a change of the column list (as in a session) or ["touch", what] on the schema object
+
+BOUND_READS = ("column_names", "columncount", "description", "shape", "rowcount", "nbytes", "len", "schema-names")
+BOUND_TOUCHES = ("names", "find", "rename-schema", "metadata", "relist", "to_dict")
+STALE_LAYOUT = ("a frame bound to a schema that was edited since an earlier append (or since the frame's names were read) "
+                "does not store the record's values in the order of the columns as they are now")
+
+
+def read_frame(df, what):
+    try:
+        if what == "column_names":
+            df.column_names
+        elif what == "columncount":
+            df.columncount
+        elif what == "description":
+            df.description
+        elif what == "shape":
+            df.shape
+        elif what == "rowcount":
+            df.rowcount
+        elif what == "nbytes":
+            df.nbytes()
+        elif what == "len":
+            len(df)
+        elif what == "schema-names":
+            df.schema.column_names, list(df.schema)
+        else:
+            raise BadCase("read %r" % (what,))
+    except BadCase:
+        raise
+    except Exception:
+        pass   # what a read answers is other properties' business
+
+
+def run_bound(case):
+    cur = [norm_col(c) for c in case["cols"]]
+    schema = make_schema(cur)
+    frames = []   # [df, held rows, lazy and not yet appended to]
+    clause = None
+    results, edited_since = [], []
+    for op in case["ops"]:
+        k = op[0]
+        if k == "bind":
+            init = [tuple(POOL[t] for t in row) for row in op[1]]
+            how = op[2] if len(op) > 2 else "list"
+            frames.append([make_frame(schema, init, how), list(init), how == "gen"])
+            edited_since.append(False)
+        elif k == "read":
+            read_frame(frames[op[1]][0], op[2])
+        elif k == "append":
+            df, held, lazy = frames[op[1]]
+
+            def rows_now(df=df):
+                df.materialize()
+                return list(df._rows)
+
+            before = list(held) if lazy else rows_now()
+            if not lazy and (len(before) != len(held) or not all(wire_eq(tuple(a), tuple(b)) for a, b in zip(before, held))):
+                clause = clause or "the frame does not hold exactly the accepted records, in order"
+            c, result, stored, after = append_step(df, schema, cur, op[2], op[3] if len(op) > 3 else "dict", before, rows_now, lazy_first=lazy)
+            if c == "appended row does not hold the values in column order" and edited_since[op[1]]:
+                c = STALE_LAYOUT
+            clause = clause or c
+            results.append(result)
+            if result == ["ok"]:
+                held.append(stored)
+            frames[op[1]][2] = False
+        else:
+            schema = apply_to_schema(schema, op)
+            cur = apply_to_mirror(cur, op)
+            if [c_.name for c_ in schema.columns] != [c_[0] for c_ in cur]:
+                raise InfraError("the harness's mirror of the column list and the schema object disagree after %r" % (op,))
+            if k != "touch":
+                edited_since = [True] * len(edited_since)
+    shown = []
+    for df, held, lazy in frames:
+        df.materialize()
+        final = [tuple(r) for r in df._rows]
+        if clause is None and (len(final) != len(held) or not all(wire_eq(a, tuple(b)) for a, b in zip(final, held))):
+            clause = "the frame does not hold exactly the accepted records, in order"
+        shown.append(abstract_rows(final))
+    return clause, {"frames": shown, "results": results, "names": [c[0] for c in cur]}
+
+
+def check_bound(case):
+    cur = [norm_col(c) for c in case["cols"]]
+    if not names_ok(cur, dup=True) or case.get("via") not in (None, "direct"):
+        return False
+    n = 0
+    for op in case["ops"]:
+        k = op[0]
+        if k == "bind":
+            if not rows_ok(cur, op[1]) or (len(op) > 2 and (op[2] not in ("list", "none", "gen") or (op[2] == "none" and op[1]))) or len(op) > 3:
+                return False
+            n += 1
+        elif k == "read":
+            if len(op) != 3 or not isinstance(op[1], int) or not 0 <= op[1] < n or op[2] not in BOUND_READS:
+                return False
+        elif k == "append":
+            if len(op) not in (3, 4) or not isinstance(op[1], int) or not 0 <= op[1] < n or not isinstance(op[2], dict) \
+                    or not all(t in POOL for t in op[2].values()) or (len(op) > 3 and op[3] not in RECORD_KINDS):
+                return False
+        elif k == "touch":
+            if len(op) != 2 or op[1] not in BOUND_TOUCHES:
+                return False
+        elif k in MUTATIONS:
+            raw = [op[1]] if k == "add" else [op[2]] if k in ("insert", "set") else op[1] if k == "replace" else []
+            if not raw_cols_ok(raw):
+                return False
+            cur = apply_to_mirror(cur, op)
+            if not names_ok(cur, dup=True):
+                return False
+        else:
+            return False
+    return n > 0
+
+
+def bound_line(case):
+    cols = [norm_col(c) for c in case["cols"]]
+    cur, ops = cols, []
+    for op in case["ops"]:
+        k = op[0]
+        if k == "bind":
+            ops.append(["bind", m_rows(op[1])])
+        elif k == "read":
+            if op[2] in ("column_names", "description"):
+                ops.append(["read", op[1]])
+        elif k == "append":
+            kind = op[3] if len(op) > 3 else "dict"
+            ops.append(["append", op[1], m_rec(op[2]), sizable(op[2]), kind_flags(record_of(op[2], kind, [c[0] for c in cur]))])
+        elif k == "touch":
+            continue
+        else:
+            if k == "reverse":
+                ops.append(["edit", ["replace", list(reversed(cur))]])
+            elif k == "add":
+                ops.append(["edit", ["add", norm_col(op[1])]])
+            elif k in ("insert", "set"):
+                ops.append(["edit", [k, op[1], norm_col(op[2])]])
+            elif k == "replace":
+                ops.append(["edit", ["replace", [norm_col(c) for c in op[1]]]])
+            else:
+                ops.append(["edit", list(op)])
+            cur = apply_to_mirror(cur, op)
+    return "C05 bound " + wire.line(cols, ops)
 
 
 # ----------------------------------------------------------------------------- model lines
@@ -1384,7 +1545,7 @@ def valid_case(c):
         if not raw_cols_ok(c["cols"]):
             return False
         cols = [norm_col(x) for x in c["cols"]]
-        if not names_ok(cols):
+        if not names_ok(cols, dup=kind in ("validate", "appends", "bound") and c.get("how") != "arrow" and c.get("via") != "arrow-schema"):
             return False
         if c.get("via", "direct") not in ROUTES or (c.get("via") == "arrow-schema" and not all(x[1] in ARROW_ROWS for x in cols)):
             return False
@@ -1394,6 +1555,8 @@ def valid_case(c):
             return check_session(c)
         if kind == "family":
             return check_family(c)
+        if kind == "bound":
+            return check_bound(c)
         if kind != "appends":
             return False
         if c.get("how", "list") not in ("list", "none", "gen", "arrow") or (c.get("how") == "none" and c["rows"]):
@@ -1501,7 +1664,7 @@ def run_multi(case):
 
 
 RUNNERS = {"validate": run_validate, "appends": run_appends, "session": run_session, "dictframe": run_dictframe, "multi": run_multi,
-           "family": run_family}
+           "family": run_family, "bound": run_bound}
 
 SHARED = ("the verdict depends on other schema objects used earlier in the same process (state shared between objects): "
           "alone, the last case of this sequence is judged correctly")
@@ -1824,6 +1987,10 @@ def evaluate(ctx, cases):
                 lines.append(dictframe_line(c))
                 owner.append((id(c), "m"))
             continue
+        if kind == "bound":
+            lines.append(bound_line(c))
+            owner.append((id(c), "m"))
+            continue
         if kind == "family":
             if got["script"] is None:
                 continue
@@ -1845,7 +2012,7 @@ def evaluate(ctx, cases):
         m = mouts.get((id(c), "m"))
         fn = run_case if c.get("pristine") else RUNNERS[kind]
         clause, got = ran[id(c)]
-        ctx.case(c, nontrivial=kind in ("dictframe", "multi", "session", "family") or len(c["cols"]) >= 1)
+        ctx.case(c, nontrivial=kind in ("dictframe", "multi", "session", "family", "bound") or len(c["cols"]) >= 1)
         record_distribution(ctx, c, got)
         if isinstance(got, dict) and got.get("skipped"):
             HISTORY_BUF.add(c)
@@ -1933,6 +2100,11 @@ def evaluate(ctx, cases):
         elif kind == "appends":
             if m[0] != got["rows"] or not results_agree(m[2], got["results"]):
                 ctx.disagree(c, got, m)
+        elif kind == "bound":
+            if m[0] != m[3]:
+                ctx.hit("bound:model-says-the-layout-is-stale")
+            if m[0] != got["frames"] or not results_agree(m[1], got["results"]) or m[2] != got["names"]:
+                ctx.disagree(c, got, m[:3])
         elif kind == "dictframe" and m is not None:
             if m[0] != got["held"] or not results_agree(m[1], got["results"]):
                 ctx.disagree(c, got, m)
@@ -1965,6 +2137,8 @@ def record_distribution(ctx, c, got):
         ctx.hit("run-in-a-process-of-its-own")
     if c.get("via") not in (None, "direct"):
         ctx.hit("schema-made:" + c["via"])
+    if "cols" in c and len({x[0] for x in c["cols"]}) != len(c["cols"]):
+        ctx.hit("schema:two-columns-of-one-name")
     if isinstance(got, dict) and got.get("skipped"):
         ctx.hit("skipped:" + got["skipped"])
         return
@@ -2016,6 +2190,18 @@ def record_distribution(ctx, c, got):
         if got["derived-content-differs"]:
             ctx.hit("family:derived-content-differs-from-plain-list-semantics", got["derived-content-differs"])
         ctx.hit("family-frames", len(got["frames"]))
+    elif kind == "bound":
+        edited = appended = False
+        for op in c["ops"]:
+            ctx.hit("bound-op:" + op[0] + (":" + op[2] if op[0] == "read" else ""))
+            if op[0] in MUTATIONS:
+                edited = appended
+            elif op[0] == "append":
+                if edited:
+                    ctx.hit("bound:append-after-an-append-and-an-edit")
+                appended = True
+        for r in got["results"]:
+            ctx.hit("bound-append:" + r[0])
     elif kind == "session":
         changed = False
         for op in c["ops"]:
@@ -2109,11 +2295,11 @@ def with_route(rng, c, p=0.2):
 
 
 def gen_validate(rng):
-    cols = gen_cols(rng)
+    cols = with_dups(rng, gen_cols(rng), 0.06)
     c = {"kind": "validate", "cols": cols, "record": gen_record_tags(rng, cols)}
     if rng.random() < 0.25:
         c["container"] = rng.choice(RECORD_KINDS)
-    return with_route(rng, c)
+    return no_arrow_dups(with_route(rng, c))
 
 
 def gen_init_rows(rng, cols, n):
@@ -2136,8 +2322,15 @@ def gen_append_records(rng, cols, also=()):
     return recs
 
 
+def no_arrow_dups(c):
+    """an arrow schema with two fields of one name is other properties' ground"""
+    if c.get("via") == "arrow-schema" and len({x[0] for x in c["cols"]}) != len(c["cols"]):
+        c["via"] = "sum"
+    return c
+
+
 def gen_appends(rng):
-    cols = gen_cols(rng, rng.randint(1, 4))
+    cols = with_dups(rng, gen_cols(rng, rng.randint(1, 4)), 0.06)
     rows = gen_init_rows(rng, cols, rng.choice([0, 0, 1, 2]))
     recs = gen_append_records(rng, cols)
     c = {"kind": "appends", "cols": cols, "rows": rows, "records": recs}
@@ -2146,7 +2339,7 @@ def gen_appends(rng):
         c["how"] = "gen"
     elif r < 0.4 and not rows:
         c["how"] = "none"
-    elif r < 0.5:
+    elif r < 0.5 and len({x[0] for x in cols}) == len(cols):
         # a frame created from an arrow table, on column names nobody in this process has used before
         uniq = "%06x" % rng.randrange(16 ** 6)
         ren = {}
@@ -2159,7 +2352,7 @@ def gen_appends(rng):
         recs = c["records"]
     if rng.random() < 0.3:
         c["containers"] = {str(i): rng.choice(RECORD_KINDS) for i in range(len(recs)) if rng.random() < 0.5}
-    return c if c.get("how") == "arrow" else with_route(rng, c)
+    return c if c.get("how") == "arrow" else no_arrow_dups(with_route(rng, c))
 
 
 def gen_mutation(rng, cur, retired, fresh_i):
@@ -2261,6 +2454,146 @@ def gen_session(rng):
                 op.append("gen")
             ops.append(op)
     return with_route(rng, {"kind": "session", "cols": cols, "ops": ops}, 0.15)
+
+
+def with_dups(rng, cols, p):
+    """two columns of one name (what the sum of two relations that share a column name has), mostly of one type"""
+    if len(cols) >= 2 and rng.random() < p:
+        i, j = sorted(rng.sample(range(len(cols)), 2))
+        cols[j][0] = cols[i][0]
+        if rng.random() < 0.7:
+            cols[j][1] = cols[i][1]
+        if rng.random() < 0.5:
+            cols[j][2] = cols[i][2]
+    return cols
+
+
+def gen_bound(rng):
+    cols = with_dups(rng, gen_cols(rng, rng.randint(1, 4)), 0.15)
+    cur = [list(c) for c in cols]
+    snapshots, retired, fresh = [cur], [], 10
+    ops = [["bind", gen_init_rows(rng, cur, rng.choice([0, 0, 1])), "list"]]
+    if not ops[0][1] and rng.random() < 0.3:
+        ops[0][2] = "none"
+    elif rng.random() < 0.2:
+        ops[0][2] = "gen"
+    n = 1
+    for _ in range(rng.randint(3, 10)):
+        r = rng.random()
+        if r < 0.45:
+            basis = cur if rng.random() < 0.75 else rng.choice(snapshots)
+            tags = gen_record_tags(rng, basis, 0.8, retired)
+            op = ["append", rng.randrange(n), tags]
+            if rng.random() < 0.1:
+                cand = [c for c in cur if c[1] in UNSIZABLE_FOR and c[0] in tags]
+                if cand:
+                    c = rng.choice(cand)
+                    tags[c[0]] = rng.choice(UNSIZABLE_FOR[c[1]])
+            if rng.random() < 0.15:
+                op.append(rng.choice(RECORD_KINDS))
+            ops.append(op)
+        elif r < 0.75:
+            op = gen_mutation(rng, cur, retired, fresh)
+            fresh += 1
+            if op[0] == "touch":
+                op = ["touch", rng.choice(BOUND_TOUCHES)]
+            elif op[0] == "set" and rng.random() < 0.5:
+                # a rename in place: the case the layout of a stored row depends on
+                c = list(cur[op[1]])
+                c[0] = gen_name(rng, {x[0] for x in cur}, fresh)
+                op = ["set", op[1], c]
+            new = apply_to_mirror(cur, op)
+            if not names_ok(new, dup=True):
+                continue
+            for c in cur:
+                if c[0] not in [x[0] for x in new] and c[0] not in retired:
+                    retired.append(c[0])
+            ops.append(op)
+            cur = new
+            snapshots.append(cur)
+        elif r < 0.9:
+            ops.append(["read", rng.randrange(n), rng.choice(BOUND_READS)])
+        else:
+            how = rng.choice(["list", "list", "gen", "none"])
+            ops.append(["bind", [] if how == "none" else gen_init_rows(rng, cur, rng.choice([0, 1])), how])
+            n += 1
+    return {"kind": "bound", "cols": cols, "ops": ops}
+
+
+def bound_table():
+    """append -> edit the shared schema -> append records written for the schema as it is now (and as it was), for every way the
+    column list can change x what was read off the frame in between x how the frame was made"""
+    a, b, d = ["a", "INTEGER", False, []], ["b", "VARCHAR", True, []], ["d", "DOUBLE", True, []]
+    old = {"a": "int", "b": "str"}
+    edits = [
+        ("rename", [["set", 1, ["b2", "VARCHAR", True, []]]], {"a": "int", "b2": "str"}),
+        ("rename-first", [["set", 0, ["a2", "INTEGER", False, []]]], {"a2": "int", "b": "str"}),
+        ("rename-not-null", [["set", 1, ["b2", "VARCHAR", False, []]]], {"a": "int", "b2": "str"}),
+        ("swap-names", [["set", 0, ["b", "INTEGER", False, []]], ["set", 1, ["a", "VARCHAR", True, []]]], {"b": "int", "a": "str"}),
+        ("reverse", [["reverse"]], {"b": "str", "a": "int"}),
+        ("add", [["add", d]], {"a": "int", "b": "str", "d": "float"}),
+        ("insert-front", [["insert", 0, d]], {"d": "float", "a": "int", "b": "str"}),
+        ("del-last", [["del", 1]], {"a": "int"}),
+        ("del-first", [["del", 0]], {"b": "str"}),
+        ("pop", [["pop", "a"]], {"b": "str"}),
+        ("replace-one", [["replace", [a, d]]], {"a": "int", "d": "float"}),
+        ("replace-same-count", [["replace", [["x", "INTEGER", False, []], ["y", "VARCHAR", True, []]]]], {"x": "int", "y": "str"}),
+        ("replace-reordered", [["replace", [b, a]]], {"a": "int", "b": "str"}),
+        ("replace-empty-and-back", [["replace", []], ["replace", [b, a]]], {"a": "int", "b": "str"}),
+        ("retype", [["set", 1, ["b", "INTEGER", True, []]]], {"a": "int", "b": "int"}),
+        ("add-then-del", [["add", d], ["del", 2]], {"a": "int", "b": "str"}),
+        ("rename-and-back", [["set", 1, ["b2", "VARCHAR", True, []]], ["set", 1, b]], {"a": "int", "b": "str"}),
+        ("add-duplicate-name", [["add", ["a", "INTEGER", False, []]]], {"a": "int", "b": "str"}),
+        ("rename-to-duplicate", [["set", 1, ["a", "INTEGER", True, []]]], {"a": "int"}),
+    ]
+    for label, edit, new in edits:
+        for how in ("list", "none", "gen"):
+            for first in ([["append", 0, old]], [["read", 0, "column_names"]], [["read", 0, "description"]], [["read", 0, "columncount"]], []):
+                for between in ([], [["read", 0, "column_names"]], [["bind", [], "list"], ["read", 1, "column_names"]], [["touch", "names"]]):
+                    if first == [] and between == []:
+                        continue
+                    yield {"kind": "bound", "cols": [a, b], "ops": [["bind", [], how]] + first + edit + between
+                           + [["append", 0, new], ["append", 0, old], ["append", 0, dict(reversed(list(new.items())))]]}
+        # the edit between the second and the third append; two frames on the one schema
+        yield {"kind": "bound", "cols": [a, b], "ops": [["bind", [["int", "str"]], "list"], ["bind", [], "list"], ["append", 0, old], ["append", 1, old]] + edit
+               + [["append", 1, new], ["append", 0, new], ["read", 0, "column_names"], ["append", 0, new, "UserDict"], ["append", 1, old]]}
+    # schemas with two columns of one name, bound and then edited
+    dup = [["id", "INTEGER", False, []], ["label", "VARCHAR", True, []], ["id", "INTEGER", False, []], ["score", "DOUBLE", True, []]]
+    rec = {"id": "int", "label": "str", "score": "float"}
+    for how in ("list", "none", "gen"):
+        yield {"kind": "bound", "cols": dup, "ops": [["bind", [], how], ["append", 0, rec], ["append", 0, {"id": "none", "label": "str", "score": "float"}],
+                                                     ["append", 0, {"score": "float", "label": "none", "id": "bigint"}], ["append", 0, dict(rec, z="int")],
+                                                     ["pop", "id"], ["append", 0, rec], ["set", 0, ["id", "VARCHAR", True, []]], ["append", 0, rec]]}
+
+
+def dup_table():
+    """schemas in which two (or more) columns bear one name — made by the constructor and as the sum of two relations that share
+    a column name — through validate and through append on frames created each way"""
+    shapes = [
+        [["id", "INTEGER", False], ["label", "VARCHAR", True], ["id", "INTEGER", False], ["score", "DOUBLE", True]],
+        [["id", "INTEGER", False], ["id", "INTEGER", False]],
+        [["k", "VARCHAR", True], ["v", "INTEGER", True], ["k", "VARCHAR", False]],
+        [["x", "INTEGER", True], ["x", "VARCHAR", True], ["y", "BOOLEAN", False]],          # one name, two types: no non-null value fits both
+        [["a", "INTEGER", False], ["b", "VARCHAR", True], ["a", "INTEGER", False], ["b", "VARCHAR", True]],
+        [["n", None, True], ["m", "DOUBLE", True], ["m", "DOUBLE", True], ["m", "DOUBLE", True]],
+    ]
+    for cols in shapes:
+        names = list(dict.fromkeys(c[0] for c in cols))
+        first_type = {n: next(c[1] for c in cols if c[0] == n) for n in names}
+        right = {n: RIGHT[first_type[n]][0] if first_type[n] else "str" for n in names}
+        recs = [right, dict(reversed(list(right.items()))), {n: "none" for n in names}, {n: right[n] for n in names[1:]},
+                dict(right, zz="int"), {n: "set" for n in names}, dict(right, **{names[0]: "none"})]
+        for via in ("direct", "sum"):
+            if via == "sum" and len(cols) < 2:
+                continue
+            for rec in recs:
+                yield {"kind": "validate", "cols": cols, "record": rec, "via": via}
+            for how in ("list", "none", "gen"):
+                rows = [] if how == "none" else [[("none" if c[2] else RIGHT[c[1]][0]) if c[1] else "str" for c in cols]]
+                if not rows_ok([norm_col(c) for c in cols], rows):
+                    rows = []
+                yield {"kind": "appends", "cols": cols, "rows": rows, "records": recs, "how": how, "via": via}
+            yield {"kind": "appends", "cols": cols, "rows": [], "records": recs, "containers": {"0": "UserDict", "1": "OrderedDict", "3": "mappingproxy"}, "via": via}
 
 
 def gen_derive(rng, n_frames, sizes):
@@ -2716,8 +3049,12 @@ def run(ctx):
     proc = list(process_table())
     routes = list(routes_table())
     sizes = list(sizes_table())
-    cases += sess + fam + proc + routes + sizes
+    bound = list(bound_table())
+    dups = list(dup_table())
+    cases += sess + fam + proc + routes + sizes + dups + bound
     evaluate(ctx, cases)
+    ctx.note("bound_scope", "bound table: append (or read column_names / description / columncount off the frame, or nothing) -> the owner edits the shared schema (rename in place, swap names, reverse, add, insert, delete, pop, replace with as many / other / reordered / no columns, retype, edits that undo each other, a second column of an existing name) -> optionally read the frame's names again / read another frame's names / touch the schema -> append a record written for the schema as it is now, one written for the schema as it was, and the first with its keys reversed; x frame created from a list / None / a generator; two frames on the one schema with the edit between their appends (%d cases); every append is judged against the columns as they are at that moment" % len(bound))
+    ctx.note("duplicate_names_scope", "schemas in which two or more columns bear one name (same type / different types / different nullability; made by the constructor and as the sum of two relations that share a column name) x conforming, reordered, all-null, one key missing, excess key, wrong type, null in the shared name through validate and through append on frames created from a list / None / a generator and with other record objects (%d cases); the stored row must have one value per column, in column order" % len(dups))
     ctx.note("sizes_scope", "sizes: schemas (and records) of 5 … 1000 columns at and around every power of two x conforming / each offence at the first, second, middle, last-but-one and last column / an excess key first or last / three offences far apart, through validate and append; frames that already hold 99 / 100 / 101 / 999 / 1000 / 1001 rows (list, generator, arrow) with appends and derivations; append histories of 100 … 1000 records; 300 appends alternating between two frames (%d cases)" % len(sizes))
     ctx.note("routes_scope", "schema routes: the schema made by its constructor / with type names / through to_dict-from_dict / to_json-from_json / copy / deepcopy / pickle / with ConstantColumn or FunctionColumn columns / as the sum of two schemas / from an arrow schema x every column type x nullable x right, null and wrong values, every subset of the four offences, appends to frames created each way, a family and a session (%d cases); judged against the columns the schema object has" % len(routes))
     ctx.note("process_scope", "process table: every other way the library is asked for a row class (arrow table read with the same / permuted / fewer / more / re-cased column names, the arrow reader alone, Row.create_class with and without tuples_only in both orders, frames built from dictionaries / on a list of names / on another schema with equally named columns) before the frame is made and between its appends and derivations x frame created from a list / None / a generator / an arrow table; an arrow-made frame and a schema-made frame with the same column names in one process, in both orders (%d cases, each run in a process of its own: a forked child of a process that has imported the library and used nothing of it); random families with such features on column names unique to the case (in this process) and with the plain names (in a process of their own)" % len(proc))
@@ -2729,7 +3066,8 @@ def run(ctx):
         batch = []
         for _ in range(1500):
             r = ctx.rng.random()
-            batch.append(gen_validate(ctx.rng) if r < 0.33 else gen_appends(ctx.rng) if r < 0.5 else gen_session(ctx.rng) if r < 0.75
+            batch.append(gen_validate(ctx.rng) if r < 0.30 else gen_appends(ctx.rng) if r < 0.45 else gen_session(ctx.rng) if r < 0.65
+                         else gen_bound(ctx.rng) if r < 0.77
                          else gen_family(ctx.rng) if r < 0.90 else gen_family(ctx.rng, process=True) if r < 0.96 else gen_dictframe(ctx.rng))
         evaluate(ctx, batch)
         done += len(batch)
@@ -2742,65 +3080,139 @@ def run(ctx):
         done += len(batch)
     ctx.note("own_process_runs", PRISTINE.runs)
     PRISTINE.stop()
-    # appends that pass validation at the record size cap: exactly at it, one past it, far past it (slow: single cases)
-    for tag, n_chars in (("at-cap", 16 * 1024 * 1024 - 6), ("past-cap", 16 * 1024 * 1024 - 5), ("huge", 17 * 1024 * 1024)):
-        big = {"kind": "appends", "cols": [["c0", "VARCHAR", True]], "rows": [], "records": [{"c0": "str"}, {"c0": tag}, {"c0": "empty"}]}
-        POOL[tag] = "x" * n_chars
+    # the record-size limit of the row serialiser: a conforming record whose packed values take at most 16 MiB — the limit the
+    # library states ("Record length cannot exceed 16Mb") — must be stored; past it the append may be refused, atomically
+    run_size_cases(ctx)
+
+
+MiB = 1024 * 1024
+STATED_LIMIT = 16 * MiB   # "Record length cannot exceed 16Mb" (orso/row.py)
+# tag -> (class, length): one value of that length; the packed record of a one-column row is 6 bytes longer
+BIG_TAGS = {"at-cap": (str, STATED_LIMIT - 6), "past-cap": (str, STATED_LIMIT - 5), "huge": (str, 17 * MiB), "over-half": (str, 8 * MiB - 5),
+            "blob-at-cap": (bytes, STATED_LIMIT - 6), "blob-12M": (bytes, 12 * MiB)}
+WITHIN_LIMIT = "append of a conforming record whose packed values take at most 16 MiB (the limit the library states) was refused"
+
+
+def big_value(tag):
+    cls, n = BIG_TAGS[tag]
+    return "x" * n if cls is str else b"\x00" * n
+
+
+def size_cases():
+    yield {"kind": "appends", "cols": [["c0", "VARCHAR", True]], "rows": [], "records": [{"c0": "str"}, {"c0": "over-half"}, {"c0": "at-cap"}, {"c0": "past-cap"}, {"c0": "empty"}]}
+    yield {"kind": "appends", "cols": [["c0", "BLOB", False]], "rows": [], "how": "none", "records": [{"c0": "blob-12M"}, {"c0": "blob-at-cap"}, {"c0": "bytes"}],
+           "containers": {"1": "UserDict"}}
+    yield {"kind": "appends", "cols": [["c0", "VARCHAR", True]], "rows": [["str"]], "how": "gen", "records": [{"c0": "huge"}, {"c0": "at-cap"}]}
+
+
+def run_size_cases(ctx):
+    for big in size_cases():
+        clause, got = run_appends_huge(big)
+        ctx.case(dict(big, kind="appends-at-the-size-limit"), True)
+        for tags, res, n in zip(big["records"], got["results"], got["packed"]):
+            for t in tags.values():
+                if t in BIG_TAGS:
+                    ctx.hit("record-size:%s:%s" % (t, "accepted" if res == ["ok"] else "refused"))
+        if clause:
+            # the fewest records that show it: one alone, or one after an ordinary one
+            for i, rec in enumerate(big["records"]):
+                small = {k: v for k, v in big.items() if k != "containers"}
+                small["records"] = [rec]
+                if str(i) in (big.get("containers") or {}):
+                    small["containers"] = {"0": big["containers"][str(i)]}
+                c2, g2 = run_appends_huge(small)
+                if c2 == clause:
+                    big, got = small, g2
+                    break
+            ctx.fail(big, clause, impl={k: got[k] for k in ("results", "packed")})
+            continue
+        # the model decides with the constant and the guard taken from the source
+        for t in BIG_TAGS:
+            POOL[t] = big_value(t)[:1]   # only the class of the value travels
         try:
-            clause, got = run_appends_huge(big)
-            ctx.case({"kind": "appends-" + tag}, True)
-            ctx.hit("record-size:%s:%s" % (tag, "accepted" if got["accepted"] == 3 else "refused"))
-            if clause:
-                ctx.fail(big, clause, impl=got)
+            names = [c[0] for c in big["cols"]]
+            recs = []
+            for i, (tags, n) in enumerate(zip(big["records"], got["packed"])):
+                kind = (big.get("containers") or {}).get(str(i), "dict")
+                recs.append([m_rec(tags), [True, n], kind_flags(record_of(tags, kind, names))])
+            line = "C05 appends " + wire.line([norm_col(c) for c in big["cols"]], m_rows(big["rows"]), recs)
         finally:
-            POOL.pop(tag, None)
+            for t in BIG_TAGS:
+                POOL.pop(t, None)
+        mo = ctx.model.batch([line])[0]
+        if not mo.startswith("ok "):
+            raise InfraError("model rejected %r: %r" % (big, mo))
+        m = wire.dec_all(mo[3:])
+        if m[0] != got["rows"] or not results_agree(m[2], got["results"]):
+            ctx.disagree(big, {k: got[k] for k in ("rows", "results", "packed")}, m)
 
 
 def run_appends_huge(case):
-    from orso import DataFrame
+    """appends of records that hold one very long value; `packed` = the length of the packed values, measured here"""
+    import ormsgpack
 
-    schema = make_schema(case["cols"])
-    df = DataFrame(rows=[], schema=schema)
-    n_ok = 0
-    clause = None
-    for tags in case["records"]:
-        before = len(df._rows)
-        try:
-            df.append(record_of(tags))
-            n_ok += 1
-            if len(df._rows) != before + 1:
-                clause = "append did not add exactly one row"
-        except Exception:
-            if len(df._rows) != before:
-                clause = "append raised but changed the frame's rows"
-    return clause, {"rows": len(df._rows), "accepted": n_ok}
+    big = sorted({t for r in case["records"] for t in r.values() if t in BIG_TAGS})
+    for t in big:
+        POOL[t] = big_value(t)
+    try:
+        schema = make_schema(case["cols"])
+        cols = [norm_col(c) for c in case["cols"]]
+        init = [tuple(POOL[t] for t in row) for row in case["rows"]]
+        df = make_frame(schema, init, case.get("how", "list"))
+        clause, results, packed, held = None, [], [], list(init)
+        for i, tags in enumerate(case["records"]):
+            rec = record_of(tags, (case.get("containers") or {}).get(str(i), "dict"), [c[0] for c in cols])
+            want = expected(cols, plain_record(tags))
+            n = len(ormsgpack.packb(tuple(plain_record(tags).get(c[0]) for c in cols)))
+            packed.append(n)
+            before = None if not isinstance(df._rows, list) else list(df._rows)
+            try:
+                df.append(rec)
+                raised = None
+            except Exception as e:
+                raised = e
+            df.materialize()
+            after = list(df._rows)
+            if raised is None:
+                results.append(["ok"])
+                row = tuple(plain_record(tags).get(c[0]) for c in cols)
+                if len(after) != len(held) + 1:
+                    clause = clause or "append did not add exactly one row"
+                elif want[0] != "ok":
+                    clause = clause or "append accepted a non-conforming record"
+                elif len(after[-1]) != len(row) or not all(a is b or (type(a) is type(b) and a == b) for a, b in zip(after[-1], row)):
+                    clause = clause or "appended row does not hold the values in column order"
+                held.append(row)
+            else:
+                got = outcome_of_exception(raised)
+                results.append(["rejected", got] if got[0] in ("excess", "invalid") else ["raised", type(raised).__name__])
+                if len(after) != len(held) or (before is not None and any(a is not b for a, b in zip(after, before))):
+                    clause = clause or "append raised but changed the frame's rows"
+                if want[0] == "ok" and n <= STATED_LIMIT:
+                    clause = clause or WITHIN_LIMIT
+        return clause, {"rows": abstract_rows([tuple(r) for r in df._rows]), "results": results, "packed": packed}
+    finally:
+        for t in big:
+            POOL.pop(t, None)
 
 
 def intensify(ctx):
     for _ in range(5):
         evaluate(ctx, [gen_validate(ctx.rng) for _ in range(2000)] + [gen_appends(ctx.rng) for _ in range(1000)]
                  + [gen_session(ctx.rng) for _ in range(1500)] + [gen_dictframe(ctx.rng) for _ in range(100)]
+                 + [gen_bound(ctx.rng) for _ in range(1500)]
                  + [gen_family(ctx.rng) for _ in range(1500)] + [gen_family(ctx.rng, process=True) for _ in range(500)]
                  + [dict(gen_family(ctx.rng, process=True, unique=False), pristine=True) for _ in range(150)])
         if ctx.violations:
             return
 
 
-BIG_TAGS = {"at-cap": 16 * 1024 * 1024 - 6, "past-cap": 16 * 1024 * 1024 - 5, "huge": 17 * 1024 * 1024}
-
-
 def replay(ctx, case):
     big = [t for r in case.get("records", []) if isinstance(r, dict) for t in r.values() if t in BIG_TAGS]
     if big:
-        for t in big:
-            POOL[t] = "x" * BIG_TAGS[t]
-        try:
-            clause, got = run_appends_huge(case)
-            if clause:
-                ctx.fail(case, clause, impl=got)
-        finally:
-            for t in big:
-                POOL.pop(t, None)
+        clause, got = run_appends_huge(case)
+        if clause:
+            ctx.fail(case, clause, impl={k: got[k] for k in ("results", "packed")})
         return
     if not case.get("kind"):  # replays written by round 1 shrank the kind away
         case = dict(case, kind="appends" if "records" in case else "validate")
